@@ -15,10 +15,11 @@ CLOSE = ")]}>abcdefghijklmnopqrstuvwxyz"
 
 CLASSES = {
     "Entry": {"kind": "object", "fields": {"index_": "int", "sequence": "char", "pair": "int"}},
-    "BpSeq": {"kind": "object", "fields": {"entries": "list[Entry]", "pairs": "dict[int,int]"}},
-    "DotBracket": {"kind": "object", "fields": {"sequence": "cstr", "structure": "cstr", "pairs": "list[tuple[int,int]]"}},
+    "BpSeq": {"kind": "object", "fields": {"entries": "list[Entry]", "pairs": "dict[int,int]"}, "derived": ["pairs"]},
+    "DotBracket": {"kind": "object", "fields": {"sequence": "cstr", "structure": "cstr", "pairs": "list[tuple[int,int]]"}, "derived": ["pairs"]},
 }
 
+SPEC_CONSTS = {"OPEN": OPEN, "CLOSE": CLOSE}
 INLINE = ["Entry.__getitem__", "Entry.__len__", "BpSeq.paired"]
 
 # uninterpreted spec functions (definitional; characterised by the axioms in LEMMAS marked kind="definition")
@@ -53,8 +54,55 @@ def stems_ok(E, S):
             and forall(lambda a, t: implies(0 <= a and a < len(S) and 0 <= t and t < len(S[a]),
                                             S[a][t] is E[S[a][0].index_ + t - 1]
                                             and S[a][t].pair == S[a][0].pair - t))
+            and forall(lambda a, x: implies(0 <= a and a < len(S) and S[a][0].index_ - 1 <= x and x <= S[a][0].index_ + len(S[a]) - 2,
+                                            E[x] is S[a][x - (S[a][0].index_ - 1)]))
             and forall(lambda a, b: implies(0 <= a and a < b and b < len(S),
                                             S[a][0].index_ + len(S[a]) - 1 < S[b][0].index_)))
+
+
+@spec
+def qual(e):
+    """entry is the 5' partner of a pair (what BpSeq.paired(only5to3=True) keeps)"""
+    return e.pair != 0 and e.index_ < e.pair
+
+
+@spec
+def run_ok(E, T):
+    """T is a run of stacked 5'->3' pairs occupying consecutive positions of E"""
+    return (forall(lambda t: implies(0 <= t and t < len(T), T[t] is E[T[0].index_ + t - 1] and T[t].pair == T[0].pair - t and qual(T[t])))
+            and forall(lambda x: implies(len(T) > 0 and T[0].index_ - 1 <= x and x <= T[0].index_ + len(T) - 2, E[x] is T[x - (T[0].index_ - 1)]))
+            and implies(len(T) > 0, 1 <= T[0].index_ and T[0].index_ + len(T) - 1 <= len(E)))
+
+
+@spec
+def noqual(E, lo, hi):
+    """no 5'->3' paired entry at the 0-based positions lo <= i < hi"""
+    return forall(lambda i: implies(lo <= i and i < hi and 0 <= i and i < len(E), not qual(E[i])))
+
+
+@spec
+def after(T):
+    """0-based position just behind the 5' strand of run T"""
+    return T[0].index_ + len(T) - 1
+
+
+@spec
+def stems_cover(E, S):
+    """every 5'->3' paired entry belongs to a stem: nothing paired 5'->3' lies before the first stem, between two
+    consecutive stems, or behind the last one"""
+    return (implies(len(S) == 0, noqual(E, 0, len(E)))
+            and implies(len(S) > 0, noqual(E, 0, S[0][0].index_ - 1) and noqual(E, after(S[len(S) - 1]), len(E)))
+            and forall(lambda a: implies(0 <= a and a + 1 < len(S), noqual(E, after(S[a]), S[a + 1][0].index_ - 1))))
+
+
+@spec
+def stems_maximal(E, S):
+    """no stem can be extended by the pair stacked directly outside or inside it"""
+    return forall(lambda a: implies(0 <= a and a < len(S),
+                                    not (S[a][0].index_ >= 2 and E[S[a][0].index_ - 2].pair == S[a][0].pair + 1)
+                                    and not (S[a][0].index_ + len(S[a]) - 1 < len(E)
+                                             and qual(E[S[a][0].index_ + len(S[a]) - 1])
+                                             and E[S[a][0].index_ + len(S[a]) - 1].pair == S[a][0].pair - len(S[a]))))
 
 
 @spec
@@ -70,6 +118,68 @@ def regions_ok(R, N):
                                     R[a][2] >= 1 and 1 <= R[a][0] and R[a][0] + R[a][2] - 1 < R[a][1] - R[a][2] + 1 and R[a][1] <= N))
 
 
+# 0-based strand intervals of region a = (start, end, length), 1-based start/end as in the code
+@spec
+def lo5(R, a):
+    return R[a][0] - 1
+
+
+@spec
+def hi5(R, a):
+    return R[a][0] + R[a][2] - 2
+
+
+@spec
+def lo3(R, a):
+    return R[a][1] - R[a][2]
+
+
+@spec
+def hi3(R, a):
+    return R[a][1] - 1
+
+
+@spec
+def regions_match(E, R):
+    """R describes stems of E: stacked pairs (s+t, e-t), 5' strands in increasing order"""
+    return (regions_ok(R, len(E))
+            and forall(lambda a, x: implies(0 <= a and a < len(R) and lo5(R, a) <= x and x <= hi5(R, a), E[x].pair == R[a][1] - (x - lo5(R, a))))
+            and forall(lambda a, b: implies(0 <= a and a < b and b < len(R), hi5(R, a) < lo5(R, b))))
+
+
+@spec
+def apart(l1, h1, l2, h2):
+    return h1 < l2 or h2 < l1
+
+
+@spec
+def strands_disjoint(R):
+    """the 2*len(R) strand intervals are pairwise disjoint"""
+    return forall(lambda a, b: implies(0 <= a and a < len(R) and 0 <= b and b < len(R) and a != b,
+                                       apart(lo5(R, a), hi5(R, a), lo5(R, b), hi5(R, b))
+                                       and apart(lo5(R, a), hi5(R, a), lo3(R, b), hi3(R, b))
+                                       and apart(lo3(R, a), hi3(R, a), lo3(R, b), hi3(R, b))))
+
+
+@spec
+def on_strand(R, a, x):
+    return (lo5(R, a) <= x and x <= hi5(R, a)) or (lo3(R, a) <= x and x <= hi3(R, a))
+
+
+@spec
+def painted(s, R, O, upto):
+    """s carries OPEN[O[a]] on the 5' strand and CLOSE[O[a]] on the 3' strand of every region a < upto, '.' elsewhere"""
+    return (forall(lambda a, x: implies(0 <= a and a < upto and lo5(R, a) <= x and x <= hi5(R, a), s[x] == OPEN[O[a]]))
+            and forall(lambda a, x: implies(0 <= a and a < upto and lo3(R, a) <= x and x <= hi3(R, a), s[x] == CLOSE[O[a]]))
+            and forall(lambda x: implies(0 <= x and x < len(s) and forall(lambda a: implies(0 <= a and a < upto, not on_strand(R, a, x))),
+                                         s[x] == '.')))
+
+
+@spec
+def seq_of(E, s):
+    return len(s) == len(E) and forall(lambda i: implies(0 <= i and i < len(E), s[i] == E[i].sequence))
+
+
 @spec
 def FC_def(R):
     """characteristic property of the first-come-first-served level function (exists uniquely by recursion on a);
@@ -81,6 +191,30 @@ def FC_def(R):
 
 
 LEMMAS = {
+    # Lemma X (DESIGN appendix A): strands of two different stems of a valid structure do not meet. Proved for a fixed pair
+    # of stems with the explicit witness x = the larger of the two lower ends (a common point of two overlapping intervals).
+    "strands_apart": {"kind": "smt", "params": ["E", "R", "a", "b"], "shapes": ["list[Entry]", "list[tuple[int,int,int]]", "int", "int"],
+                      "requires": ["valid(E)", "regions_match(E, R)"],
+                      "steps": [
+                          "let inr = 0 <= a and a < len(R) and 0 <= b and b < len(R) and a != b",
+                          "assert implies(inr, apart(lo5(R, a), hi5(R, a), lo5(R, b), hi5(R, b)))",
+                          # 5' strand of a against 3' strand of b
+                          "let x = ite(lo5(R, a) >= lo3(R, b), lo5(R, a), lo3(R, b))",
+                          "let ov = inr and not apart(lo5(R, a), hi5(R, a), lo3(R, b), hi3(R, b))",
+                          "assert implies(ov, E[x].pair == R[a][1] - (x - lo5(R, a)))",
+                          "assert implies(ov, E[R[b][0] + (hi3(R, b) - x) - 1].pair == R[b][1] - (hi3(R, b) - x))",
+                          "assert implies(ov, E[x].pair == R[b][0] + (hi3(R, b) - x))",
+                          "assert not ov",
+                          # 3' strand of a against 3' strand of b
+                          "let y = ite(lo3(R, a) >= lo3(R, b), lo3(R, a), lo3(R, b))",
+                          "let ow = inr and not apart(lo3(R, a), hi3(R, a), lo3(R, b), hi3(R, b))",
+                          "assert implies(ow, E[R[a][0] + (hi3(R, a) - y) - 1].pair == y + 1)",
+                          "assert implies(ow, E[R[b][0] + (hi3(R, b) - y) - 1].pair == y + 1)",
+                          "assert implies(ow, E[y].pair == R[a][0] + (hi3(R, a) - y) and E[y].pair == R[b][0] + (hi3(R, b) - y))",
+                          "assert not ow"],
+                      "ensures": ["implies(0 <= a and a < len(R) and 0 <= b and b < len(R) and a != b, "
+                                  "apart(lo5(R, a), hi5(R, a), lo5(R, b), hi5(R, b)) and apart(lo5(R, a), hi5(R, a), lo3(R, b), hi3(R, b)) "
+                                  "and apart(lo3(R, a), hi3(R, a), lo3(R, b), hi3(R, b)))"]},
     "FC_definition": {"kind": "definition", "params": ["R"], "ensures": ["FC_def(R)"]},
     "levels30_definition": {"kind": "definition", "params": ["s", "R"],
                             "ensures": ["implies(levels30(s), forall(lambda a: implies(0 <= a and a < len(R), FC(a) < 30)))"]},
@@ -95,23 +229,166 @@ class Entry_getitem:
 
 
 class stems_entries:
+    """C01/C07: the stems are exactly the maximal runs of directly stacked 5'->3' pairs, in 5' order"""
     target = "BpSeq.__stems_entries"
     params = {"self": "BpSeq"}
     requires = ["valid(self.entries)"]
     returns = "list[list[Entry]]"
-    ensures = ["stems_ok(self.entries, result)"]
+    ensures = ["stems_ok(self.entries, result)",
+               "stems_cover(self.entries, result)",
+               "stems_maximal(self.entries, result)"]
+    ensures_labels = {0: "runs-of-stacked-pairs", 1: "every-pair-in-a-stem", 2: "maximal"}
+    raises = []
     modifies = []
+    locals = {"stems": "list[list[Entry]]", "entries": "list[Entry]"}
+    loops = {0: {"index": "p", "inv": [
+        "len(stems) >= 0 and len(entries) >= 0",
+        "stems_ok(self.entries, stems)",
+        "run_ok(self.entries, entries)",
+        # the open run lies below the cursor and nothing paired 5'->3' sits between it and the cursor
+        "implies(len(entries) > 0, after(entries) <= p and noqual(self.entries, after(entries), p))",
+        "implies(len(entries) == 0, len(stems) == 0 and noqual(self.entries, 0, p))",
+        # closed stems: gaps between them are free of 5'->3' pairs; the open run follows the last closed stem
+        "implies(len(stems) > 0, noqual(self.entries, 0, stems[0][0].index_ - 1))",
+        "forall(lambda a: implies(0 <= a and a + 1 < len(stems), noqual(self.entries, after(stems[a]), stems[a + 1][0].index_ - 1)))",
+        "implies(len(stems) > 0, len(entries) > 0 and after(stems[len(stems) - 1]) < entries[0].index_ and noqual(self.entries, after(stems[len(stems) - 1]), entries[0].index_ - 1))",
+        "implies(len(stems) == 0 and len(entries) > 0, noqual(self.entries, 0, entries[0].index_ - 1))",
+        # maximality so far: closed stems both ways, the open run backwards
+        "stems_maximal(self.entries, stems)",
+        "implies(len(entries) > 0, not (entries[0].index_ >= 2 and self.entries[entries[0].index_ - 2].pair == entries[0].pair + 1))",
+    ]}}
+    ghost = [
+        {"when": "before", "at": "stems.append(entries)", "loop": 0, "label": "closed-run-maximal",
+         "do": ["assert entries[len(entries) - 1].index_ == after(entries) and entries[len(entries) - 1].pair == entries[0].pair - len(entries) + 1",
+                "assert not (after(entries) < len(self.entries) and qual(self.entries[after(entries)]) and self.entries[after(entries)].pair == entries[0].pair - len(entries))"]},
+        {"when": "after", "at": "entries = [entry]", "loop": 0, "label": "new-run-maximal",
+         "do": ["assert not (entry.index_ >= 2 and self.entries[entry.index_ - 2].pair == entry.pair + 1)"]},
+        {"when": "before", "at": "if entries:", "label": "open-run-maximal",
+         "do": ["assert implies(len(entries) > 0, not (after(entries) < len(self.entries) and qual(self.entries[after(entries)])))"]},
+    ]
+
+
+class bpseq_sequence:
+    target = "BpSeq.sequence"
+    params = {"self": "BpSeq"}
+    requires = []
+    returns = "cstr"
+    ensures = ["seq_of(self.entries, result)"]
+    raises = []
+    modifies = []
+
+
+class db_from_string:
+    target = "DotBracket.from_string"
+    params = {"sequence": "cstr", "structure": "cstr"}
+    requires = []
+    returns = "DotBracket"
+    raises = {"ValueError": "len(sequence) != len(structure)"}
+    ensures = ["fresh(result)", "result.sequence == sequence", "result.structure == structure"]
+    modifies = []
+
+
+class db_post_init:
+    """general contract of the decoder: may raise IndexError (closing bracket without an opening one)"""
+    target = "DotBracket.__post_init__"
+    params = {"self": "DotBracket"}
+    requires = []
+    raises = ["IndexError"]
+    ensures = ["forall(lambda q: implies(0 <= q and q < len(self.pairs), 0 <= self.pairs[q][0] and self.pairs[q][0] < self.pairs[q][1] and self.pairs[q][1] < len(self.structure)))"]
+    ensures_labels = {0: "pairs-are-ordered-positions"}
+    modifies = ["DotBracket.pairs@self"]
+    locals = {"begins": "dict[char,list[int]]", "matches": "dict[char,char]"}
+    loops = {0: {"touches": {"DotBracket.pairs": ["self"]}, "inv": [
+        "len(self.pairs) >= 0",
+        "forall(lambda ch: implies(ch in OPEN, ch in begins and len(begins[ch]) >= 0), sorts={'ch': 'char'})",
+        "forall(lambda ch, u: implies(ch in OPEN and 0 <= u and u < len(begins[ch]), 0 <= begins[ch][u] and begins[ch][u] < i), sorts={'ch': 'char'})",
+        "forall(lambda q: implies(0 <= q and q < len(self.pairs), 0 <= self.pairs[q][0] and self.pairs[q][0] < self.pairs[q][1] and self.pairs[q][1] < i))"]}}
+
+
+@spec
+def proper(R, O):
+    """crossing stems sit on different levels; levels are bracket types"""
+    return (forall(lambda a: implies(0 <= a and a < len(R), 0 <= O[a] and O[a] < 30))
+            and forall(lambda a, b: implies(0 <= a and a < len(R) and 0 <= b and b < len(R) and crossing(R[a][0], R[a][1], R[b][0], R[b][1]), O[a] != O[b])))
+
+
+@spec
+def partner(R, a, x):
+    """0-based 3' partner of the 0-based position x on the 5' strand of region a"""
+    return hi3(R, a) - (x - lo5(R, a))
+
+
+@spec
+def noclose(R, lo, hi):
+    """no position in [lo, hi) lies on the 3' strand of a region"""
+    return forall(lambda y, a: implies(lo <= y and y < hi and 0 <= a and a < len(R), not (lo3(R, a) <= y and y <= hi3(R, a))))
+
+
+@spec
+def decoded(P, R, upto):
+    """P lists exactly the pairs of the regions R whose 3' end lies below `upto`, by increasing 3' position"""
+    return (forall(lambda q: implies(0 <= q and q < len(P),
+                                     P[q][1] < upto and exists(lambda a: 0 <= a and a < len(R) and lo3(R, a) <= P[q][1] and P[q][1] <= hi3(R, a)
+                                                               and P[q][0] == lo5(R, a) + (hi3(R, a) - P[q][1]))))
+            and forall(lambda q: implies(0 <= q and q + 1 < len(P), P[q][1] < P[q + 1][1] and noclose(R, P[q][1] + 1, P[q + 1][1])))
+            and implies(len(P) > 0, noclose(R, 0, P[0][1]) and noclose(R, P[len(P) - 1][1] + 1, upto))
+            and implies(len(P) == 0, noclose(R, 0, upto)))
+
+
+class db_post_init_painted:
+    """C01 decoder on a text painted from a proper level assignment (ghost R, O): never pops an empty stack and yields
+    exactly the pairs of the regions"""
+    target = "DotBracket.__post_init__"
+    params = {"self": "DotBracket"}
+    ghost_params = {"R": "list[tuple[int,int,int]]", "O": "list[int]"}
+    requires = ["regions_ok(R, len(self.structure))", "strands_disjoint(R)", "len(O) >= len(R)", "proper(R, O)",
+                "painted(self.structure, R, O, len(R))"]
+    raises = []
+    ensures = ["decoded(self.pairs, R, len(self.structure))"]
+    ensures_labels = {0: "decodes-to-the-regions-pairs"}
+    modifies = ["DotBracket.pairs@self"]
+    locals = {"begins": "dict[char,list[int]]", "matches": "dict[char,char]"}
+    loops = {0: ["len(self.pairs) >= 0",
+                 "forall(lambda l: implies(0 <= l and l < 30, OPEN[l] in begins and len(begins[OPEN[l]]) >= 0))",
+                 # stack l holds, in increasing order, exactly the opened positions of level l whose partner is still ahead
+                 "forall(lambda l, u: implies(0 <= l and l < 30 and 0 <= u and u < len(begins[OPEN[l]]), 0 <= begins[OPEN[l]][u] and begins[OPEN[l]][u] < i and exists(lambda a: 0 <= a and a < len(R) and O[a] == l and lo5(R, a) <= begins[OPEN[l]][u] and begins[OPEN[l]][u] <= hi5(R, a) and partner(R, a, begins[OPEN[l]][u]) >= i)))",
+                 "forall(lambda l, u, v: implies(0 <= l and l < 30 and 0 <= u and u < v and v < len(begins[OPEN[l]]), begins[OPEN[l]][u] < begins[OPEN[l]][v]))",
+                 "forall(lambda a, x: implies(0 <= a and a < len(R) and lo5(R, a) <= x and x <= hi5(R, a) and x < i and partner(R, a, x) >= i, exists(lambda u: 0 <= u and u < len(begins[OPEN[O[a]]]) and begins[OPEN[O[a]]][u] == x)))",
+                 "decoded(self.pairs, R, i)"]}
 
 
 class make_dot_bracket:
+    """C01: the text written for (regions, orders) carries OPEN/CLOSE[orders[a]] on the two strands of every stem and dots elsewhere"""
     target = "BpSeq.__make_dot_bracket"
     params = {"self": "BpSeq", "regions": "list[tuple[int,int,int]]", "orders": "list[int]"}
-    requires = ["regions_ok(regions, len(self.entries))",
+    requires = ["valid(self.entries)", "regions_match(self.entries, regions)",
                 "len(orders) >= len(regions)",
                 "forall(lambda a: implies(0 <= a and a < len(regions), 0 <= orders[a] and orders[a] < 30))"]
     returns = "DotBracket"
-    ensures = ["len(result.structure) == len(self.entries)", "fresh(result)"]
+    ensures = ["len(result.structure) == len(self.entries)",
+               "painted(result.structure, regions, orders, len(regions))",
+               "seq_of(self.entries, result.sequence)",
+               "fresh(result)"]
+    ensures_labels = {0: "length", 1: "painted", 2: "sequence", 3: "fresh"}
+    raises = []
     modifies = []
+    locals = {"structure": "cstr"}
+    ghost_entry = ["forall a, b | use strands_apart(self.entries, regions, a, b) | assert implies(0 <= a and a < len(regions) and 0 <= b and b < len(regions) and a != b, "
+                   "apart(lo5(regions, a), hi5(regions, a), lo5(regions, b), hi5(regions, b)) and "
+                   "apart(lo5(regions, a), hi5(regions, a), lo3(regions, b), hi3(regions, b)) and "
+                   "apart(lo3(regions, a), hi3(regions, a), lo3(regions, b), hi3(regions, b)))"]
+    loops = {
+        0: {"index": "a0", "inv": ["len(structure) == len(self.entries)", "painted(structure, regions, orders, a0)"]},
+        1: {"decreases": "n", "inv": [
+            "len(structure) == len(self.entries)",
+            "0 <= n and n <= stem[2] and j == stem[0] + (stem[2] - n) and k == stem[1] - (stem[2] - n)",
+            "forall(lambda a, x: implies(0 <= a and a < i and lo5(regions, a) <= x and x <= hi5(regions, a), structure[x] == OPEN[orders[a]]))",
+            "forall(lambda a, x: implies(0 <= a and a < i and lo3(regions, a) <= x and x <= hi3(regions, a), structure[x] == CLOSE[orders[a]]))",
+            "forall(lambda x: implies(lo5(regions, i) <= x and x < j - 1, structure[x] == OPEN[orders[i]]))",
+            "forall(lambda x: implies(k - 1 < x and x <= hi3(regions, i), structure[x] == CLOSE[orders[i]]))",
+            "forall(lambda x: implies(0 <= x and x < len(structure) and forall(lambda a: implies(0 <= a and a < i, not on_strand(regions, a, x))) and not (lo5(regions, i) <= x and x < j - 1) and not (k - 1 < x and x <= hi3(regions, i)), structure[x] == '.'))",
+        ]},
+    }
 
 
 class fcfs:
@@ -141,6 +418,10 @@ class fcfs:
 
 
 CONTRACTS = {
+    "BpSeq.sequence": bpseq_sequence,
+    "DotBracket.from_string": db_from_string,
+    "DotBracket.__post_init__": db_post_init,
+    "DotBracket.__post_init__@painted": db_post_init_painted,
     "BpSeq.__stems_entries": stems_entries,
     "BpSeq.__make_dot_bracket": make_dot_bracket,
     "BpSeq.fcfs": fcfs,
